@@ -24,6 +24,8 @@ import Osmium.Lemmas.GeomSpec
 import Osmium.Lemmas.GeomText
 import Osmium.Lemmas.GeomD2S
 import Osmium.Generated.Consts
+import Osmium.Generated.Src
+import Osmium.Lemmas.CxxSem
 
 namespace Osmium.Geom.C17
 
@@ -291,5 +293,48 @@ theorem consts_tie_geom :
     Wkb.wkbSRID = Osmium.Generated.Consts.wkbSRIDFlag ∧ maxDoubleLengthFixed = Osmium.Generated.Consts.maxDoubleLength ∧
     undefinedCoordinate = (Osmium.Generated.Consts.undefinedCoordinate : Int) ∧
     Osmium.Generated.Consts.wkbPoint = 1 ∧ Osmium.Generated.Consts.wkbLineString = 2 ∧ Osmium.Generated.Consts.wkbPolygon = 3 ∧ Osmium.Generated.Consts.wkbMultiPolygon = 6 := by decide
+
+/-! ### source ties (tools/cxx2lean.py): the functions REGENERATED from /repo's C++ source on every run
+    (Osmium/Generated/Src.lean) equal the hand-written model functions the theorems above are about. -/
+
+section SrcTies
+open Osmium.Generated Osmium.CxxSem
+
+/-- `Location::valid()` (osm/location.hpp; the comparison is done in `double`: `m_x >= -180 * precision()`,
+    exact because every operand is an integer of magnitude < 2^53) = `Location.valid`, for ALL coordinates -/
+theorem src_tie_location_valid (x y : Int) :
+    Src.Location.Location.valid ⟨x, y⟩ = Location.valid ⟨x, y⟩ := by
+  dsimp only [Location.valid]
+  rw [Bool.eq_iff_iff]
+  simp [Src.Location.Location.valid, Src.Location.Location.precision, Src.Location.coordinate_precision] <;> omega
+
+/-- on every int32 pair the `double` arithmetic of `valid()` is exact and nothing is undefined -/
+theorem src_defined_location_valid (l : Src.Location.Location) (h : Src.Location.Location.typed l = true) :
+    Src.Location.Location.valid_defined l = true := by
+  simp only [Src.Location.Location.typed, Bool.and_eq_true, inS_iff] at h
+  simp [Src.Location.Location.valid_defined, Src.Location.Location.precision_defined, Src.Location.Location.precision,
+    Src.Location.coordinate_precision, exactD]
+  omega
+
+example : Src.Location.Location.typed ⟨-1800000000, 900000000⟩ = true := by decide
+
+/-- `Location()` is the undefined location, `undefined_coordinate` the model's constant -/
+theorem src_tie_location_undefined :
+    Src.Location.Location.ctor = ⟨undefinedCoordinate, undefinedCoordinate⟩ ∧
+    Src.Location.Location.undefined_coordinate = undefinedCoordinate := by
+  constructor <;> decide
+
+/-- `is_undefined()`, `is_defined()` and `operator bool()` against the model's undefined location:
+    undefined = both coordinates, `operator bool` = neither coordinate, `is_defined` = not both -/
+theorem src_tie_location_is_undefined (x y : Int) :
+    (Src.Location.Location.is_undefined ⟨x, y⟩ = true ↔ (⟨x, y⟩ : Location) = Location.undefined) ∧
+    (Src.Location.Location.is_defined ⟨x, y⟩ = true ↔ (⟨x, y⟩ : Location) ≠ Location.undefined) ∧
+    (Src.Location.Location.op_to_bool ⟨x, y⟩ = true ↔ x ≠ undefinedCoordinate ∧ y ≠ undefinedCoordinate) := by
+  have e : wrapS 32 Src.Location.Location.undefined_coordinate = 2147483647 := by decide
+  refine ⟨?_, ?_, ?_⟩ <;>
+    simp [Src.Location.Location.is_undefined, Src.Location.Location.is_defined, Src.Location.Location.op_to_bool, e,
+      Location.undefined, undefinedCoordinate] <;> omega
+
+end SrcTies
 
 end Osmium.Geom.C17
